@@ -220,6 +220,8 @@ class Ctx:
         self.known = []
         if os.path.exists(kf):
             self.known = [k for k in json.load(open(kf))["findings"]]
+        for extra in sorted(glob.glob(os.path.join(VERIF, "known_findings.d", "*.json"))):
+            self.known += json.load(open(extra))["findings"]
 
     @property
     def quick(self):
@@ -311,3 +313,56 @@ class Ctx:
 
     def cleanup(self):
         shutil.rmtree(self.scratch, ignore_errors=True)
+
+
+# --- running the compiler proper ------------------------------------------------------
+def cproc(objdir, src, target="x86_64-sysv", args=(), env=None, timeout=20, tokdump=False, trace=None, path=None):
+    """Run <objdir>/cproc-qbe on source text (stdin unless path given). Returns (rc, stdout str, stderr str).
+    rc < 0: killed by signal -rc; rc == -999: timeout."""
+    e = dict(os.environ)
+    e["ASAN_OPTIONS"] = "detect_leaks=0:abort_on_error=0"
+    e["UBSAN_OPTIONS"] = "print_stacktrace=1:halt_on_error=1"
+    e.pop("CPROC_VERIF_TRACE", None)
+    e.pop("CPROC_VERIF_TOKDUMP", None)
+    if tokdump:
+        e["CPROC_VERIF_TOKDUMP"] = "1"
+    if trace:
+        e["CPROC_VERIF_TRACE"] = trace
+    if env:
+        e.update(env)
+    cmd = [os.path.join(objdir, "cproc-qbe")] + (["-t", target] if target else []) + list(args)
+    data = None
+    if path is not None:
+        cmd.append(path)
+    else:
+        data = src.encode("utf-8", "surrogateescape") if isinstance(src, str) else src
+    rc, out, err = run(cmd, stdin=data, timeout=timeout, env=e)
+    return rc, out.decode("utf-8", "surrogateescape"), err.decode("utf-8", "replace")
+
+
+def pmap(fn, items, workers=16):
+    from concurrent.futures import ThreadPoolExecutor
+    with ThreadPoolExecutor(max_workers=workers) as ex:
+        return list(ex.map(fn, items))
+
+
+def read_tokdump(out):
+    """Parse the H1 dump: list of dicts kind, space, hide, line, col, file, text."""
+    toks = []
+    for ln in out.split("\n"):
+        if not ln:
+            continue
+        f = ln.split("\t", 6)
+        if len(f) != 7:
+            raise MachineryError("bad tokdump line %r" % ln)
+        toks.append({"kind": int(f[0]), "space": int(f[1]), "hide": int(f[2]), "line": int(f[3]), "col": int(f[4]), "file": f[5], "text": f[6]})
+    return toks
+
+
+def token_kinds():
+    """enum tokenkind names in order, read from /repo/cc.h at run time."""
+    src = open(os.path.join(REPO, "cc.h")).read()
+    body = src[src.index("enum tokenkind {") + len("enum tokenkind {"):]
+    body = body[:body.index("};")]
+    body = re.sub(r"/\*.*?\*/", "", body, flags=re.S)
+    return [x.strip() for x in body.split(",") if x.strip()]
